@@ -276,6 +276,27 @@ Proof. intros H s' D. exact (H s' (deliver_ok _ _ _ _ _ D)). Qed.
 Lemma deliver_basic P env s a s' : deliver P env s a = Ok s' -> msg_basic P a = true.
 Proof. unfold deliver. destruct (msg_basic P a); [reflexivity | discriminate]. Qed.
 
+(** ** governance: client creation (HEAD: own name refused) and upgrade *)
+Lemma register_client_ok P s name c ok s' :
+  register_client P s name c ok = Ok s' ->
+  valid_name P name = true /\ name <> st_name s /\ aget name (st_clients s) = None /\
+  s' = set_clients (aset name c (st_clients s)) s.
+Proof.
+  unfold register_client. intro H. destruct (valid_name P name); cbn in H; [|discriminate].
+  destruct (bytes_eqb_spec name (st_name s)) as [E|E]; [discriminate|].
+  destruct (aget name (st_clients s)); [discriminate|]. destruct ok; inversion H; subst. auto.
+Qed.
+
+Lemma upgrade_client_ok P s name c ok s' : upgrade_client P s name c ok = Ok s' -> s' = s.
+Proof.
+  unfold upgrade_client. intro H. destruct (valid_name P name); cbn in H; [|discriminate].
+  destruct (aget name (st_clients s)) as [c0|]; [|discriminate].
+  destruct (c0 =? c); [|discriminate]. destruct ok; inversion H; reflexivity.
+Qed.
+
+Lemma register_own_name_refused P s c ok : register_client P s (st_name s) c ok = Err.
+Proof. unfold register_client. destruct (valid_name P (st_name s)); cbn; [|reflexivity]. rewrite bytes_eqb_refl. reflexivity. Qed.
+
 Lemma step_rejected P s env a : (forall s', exec P env s a <> Ok s') -> step P s (env, a) = (s, false).
 Proof.
   intro H. unfold step. cbn [fst snd]. destruct (deliver P env s a) as [s'| |] eqn:D; try reflexivity.
